@@ -2168,4 +2168,265 @@ theorem accepts_iff_13D (s : Text) : (F13D.parse s).isOk = true ↔ Doc.F13D s :
         beq_self_eq_true, hdig, hok, Res.pure_eq]
       rfl
 
+
+/-! ### 13C: a documented code word between slashes, then time, sign and offset -/
+
+theorem isAsciiT_drop (t : Text) (n : Nat) (h : isAsciiT t = true) : isAsciiT (t.drop n) = true := by
+  unfold isAsciiT at *
+  rw [List.all_eq_true] at *
+  intro c hc; exact h c (List.mem_of_mem_drop hc)
+
+theorem codes13C_shape : ∀ c ∈ codes13C, (∀ x ∈ c, x ≠ '/') ∧ isAsciiT c = true ∧ 1 ≤ c.length := by decide
+
+/-- 13C `/8c/4!n1!x4!n`: a documented code word between slashes, a time of day, a sign and an offset of at most 14:59 -/
+theorem accepts_iff_13C (s : Text) : (F13C.parse s).isOk = true ↔ Doc.F13C codes13C s := by
+  constructor
+  · intro h
+    cases hp : F13C.parse s with
+    | err => rw [hp] at h; simp [Res.isOk] at h
+    | panic => rw [hp] at h; simp [Res.isOk] at h
+    | ok v =>
+      unfold F13C.parse at hp
+      split at hp; · cases hp
+      rename_i hasc
+      split at hp; · cases hp
+      have ha : isAsciiT s = true := by simpa using hasc
+      split at hp
+      · rename_i rest _
+        split at hp; · cases hp
+        rename_i p hfind
+        simp only at hp
+        split at hp; · cases hp
+        split at hp; · cases hp
+        rename_i hcode
+        split at hp; · cases hp
+        rename_i hlen
+        have hsplit := (findChar_split hfind).1
+        have har : isAsciiT (rest.drop (p + 1)) = true := by
+          have : isAsciiT rest = true := by
+            have := isAsciiT_drop ('/' :: rest) 1 ha
+            simpa using this
+          exact isAsciiT_drop rest (p + 1) this
+        generalize rest.drop (p + 1) = rem at *
+        have hl : rem.length = 9 := by
+          have : blen rem = 9 := by simpa using hlen
+          rw [blen_ascii rem har] at this; exact this
+        rw [bslice_ascii rem 0 4 har (by omega) (by omega)] at hp
+        simp only [Res.bind_ok] at hp
+        obtain ⟨_, _, hp⟩ := bind_ok_inv hp
+        obtain ⟨time, ht, hp⟩ := bind_ok_inv hp
+        obtain ⟨c, hc⟩ : ∃ c, rem[4]? = some c := ⟨rem[4], List.getElem?_eq_getElem (by omega)⟩
+        rw [hc] at hp
+        simp only [Res.unwrap, Res.bind_ok] at hp
+        split at hp; · cases hp
+        rename_i hsign
+        rw [bslice_ascii rem 5 9 har (by omega) (by omega)] at hp
+        simp only [Res.bind_ok] at hp
+        obtain ⟨off, hoff, hp⟩ := bind_ok_inv hp
+        obtain ⟨_, hnum, hp⟩ := bind_ok_inv hp
+        obtain ⟨_, hok, hp⟩ := bind_ok_inv hp
+        cases hp
+        have hoff' : off = List.take (9 - 5) (List.drop 5 rem) := by
+          unfold parseExactLength at hoff; split at hoff
+          · cases hoff; rfl
+          · cases hoff
+        have hofflen : off.length = 4 := by rw [hoff']; simp [List.length_take, List.length_drop]; omega
+        have hs2 : c = '+' ∨ c = '-' := by
+          by_cases h1 : c = '+'
+          · exact Or.inl h1
+          · by_cases h2 : c = '-'
+            · exact Or.inr h2
+            · exfalso; apply hsign; simp [h1, h2]
+        have hdig : off.all Char.isDigit = true := by unfold parseNumeric at hnum; exact guard_ok hnum
+        have hso : Doc.SignedOffset c off := (offset_model_iff c off hofflen).mp ⟨hs2, hdig, hok⟩
+        have e4 : rem.drop 4 = c :: rem.drop 5 := by
+          have hlt : 4 < rem.length := by omega
+          have : rem[4] = c := by
+            have := List.getElem?_eq_getElem hlt
+            rw [this] at hc; exact Option.some.inj hc
+          rw [← this]; exact List.drop_eq_getElem_cons hlt
+        have e5 : (rem.drop 5).take (9 - 5) = rem.drop 5 := List.take_of_length_le (by simp [List.length_drop]; omega)
+        have erem : rem = (rem.drop 0).take (4 - 0) ++ c :: off := by
+          rw [hoff', e5, ← e4]; simp
+        refine ⟨rest.take p, (rem.drop 0).take (4 - 0), c, off, ?_, ?_, ?_, hso⟩
+        · conv => lhs; rw [hsplit, erem]
+          simp
+        · have : codes13C.contains (rest.take p) = true := by simpa using hcode
+          exact List.contains_iff_mem.mp this
+        · unfold Doc.Time; rw [ofOption_ok ht]; rfl
+      · cases hp
+  · rintro ⟨code, time, sign, off, rfl, hcode, ht, ho⟩
+    obtain ⟨cno, casc, clen⟩ := codes13C_shape code hcode
+    obtain ⟨t1, t2⟩ := time_shape time ht
+    have o1 := offset_shape sign off ho
+    obtain ⟨hs2, hdig, hok⟩ := (offset_model_iff sign off o1).mpr ho
+    have hsa : isAsciiC sign = true := by rcases hs2 with rfl | rfl <;> decide
+    have tasc := all_digit_ascii time t2
+    have oasc := all_digit_ascii off hdig
+    have remasc : isAsciiT (time ++ sign :: off) = true := by
+      unfold isAsciiT at *; simp only [List.all_append, List.all_cons, tasc, hsa, oasc, Bool.and_true]
+    have hall : isAsciiT ('/' :: code ++ '/' :: time ++ sign :: off) = true := by
+      unfold isAsciiT at *
+      simp only [List.cons_append, List.all_cons, List.all_append, casc, tasc, hsa, oasc, Bool.and_true, Bool.true_and]
+      decide
+    have hfind : findChar '/' (code ++ '/' :: (time ++ sign :: off)) = some code.length := findChar_append code _ cno
+    have hremlen : (time ++ sign :: off).length = 9 := by simp [t1, o1]
+    unfold F13C.parse
+    have hb : blen ('/' :: code ++ '/' :: time ++ sign :: off) = code.length + 11 := by
+      rw [blen_ascii _ hall]; simp [t1, o1]
+    have hnlt : ¬ (code.length + 11 < 10) := by omega
+    simp only [hall, Bool.not_true, Bool.false_eq_true, if_false, hb, hnlt]
+    have hshape : ('/' :: code ++ '/' :: time ++ sign :: off) = '/' :: (code ++ '/' :: (time ++ sign :: off)) := by simp
+    rw [hshape]
+    simp only [hfind]
+    have hp2 : ¬ (code.length + 1 < 2) := by omega
+    have htake : (code ++ '/' :: (time ++ sign :: off)).take code.length = code := by
+      rw [List.take_append_of_le_length (Nat.le_refl _)]; exact List.take_of_length_le (Nat.le_refl _)
+    have hdrop : (code ++ '/' :: (time ++ sign :: off)).drop (code.length + 1) = time ++ sign :: off := by
+      have : (code ++ '/' :: (time ++ sign :: off)).drop code.length = '/' :: (time ++ sign :: off) := by
+        rw [List.drop_append_of_le_length (Nat.le_refl _)]; simp
+      have h2 : (code ++ '/' :: (time ++ sign :: off)).drop (code.length + 1) = ((code ++ '/' :: (time ++ sign :: off)).drop code.length).drop 1 := by
+        rw [List.drop_drop]
+      rw [h2, this]; rfl
+    have hcont : codes13C.contains code = true := List.contains_iff_mem.mpr hcode
+    have hrb : blen (time ++ sign :: off) = 9 := by rw [blen_ascii _ remasc]; exact hremlen
+    simp only [hp2, if_false, htake, hcont, Bool.not_true, Bool.false_eq_true, hdrop, hrb, bne_self_eq_false]
+    rw [bslice_ascii _ 0 4 remasc (by omega) (by omega), bslice_ascii _ 5 9 remasc (by omega) (by omega)]
+    have e0 : ((time ++ sign :: off).drop 0).take (4 - 0) = time := by
+      simp only [List.drop_zero, Nat.sub_zero]
+      rw [List.take_append_of_le_length (by omega)]; exact List.take_of_length_le (by omega)
+    have e4 : (time ++ sign :: off)[4]? = some sign := by
+      rw [List.getElem?_append_right (by omega)]; simp [t1]
+    have e5 : ((time ++ sign :: off).drop 5).take (9 - 5) = off := by
+      have : (time ++ sign :: off).drop 5 = off := by
+        have h4 : (time ++ sign :: off).drop 4 = sign :: off := by
+          rw [List.drop_append_of_le_length (by omega), List.drop_of_length_le (by omega)]; rfl
+        have : (time ++ sign :: off).drop 5 = ((time ++ sign :: off).drop 4).drop 1 := by rw [List.drop_drop]
+        rw [this, h4]; rfl
+      rw [this]; exact List.take_of_length_le (by omega)
+    simp only [Res.bind_ok, e0, e4, e5, Res.unwrap]
+    unfold Doc.Time at ht
+    cases hpt : parseTimeHHMM time with
+    | none => simp [hpt] at ht
+    | some tv =>
+      have hsn : ¬ ((sign != '+' && sign != '-') = true) := by rcases hs2 with rfl | rfl <;> decide
+      have hob : blen off = 4 := by rw [blen_ascii off oasc]; exact o1
+      simp only [Res.ofOption, Res.bind_ok, parseNumeric, Res.guard, t2, if_true, hsn, if_false, parseExactLength, hob,
+        beq_self_eq_true, hdig, hok, Res.pure_eq]
+      rfl
+
+
+/-! ### 28D: two numbers of at most five digits, index ≤ total, both positive -/
+
+theorem all_isDigit_iff (t : Text) : t.all Char.isDigit = t.all isDigitC := by
+  induction t with
+  | nil => rfl
+  | cons c cs ih => simp [List.all_cons, isDigit_iff, ih]
+
+/-- what a numeric component that was read satisfies -/
+theorem numRead {c : Text} {k mx n : Nat} (hk : ¬ blen c > k) (hd : c.all Char.isDigit = true) (hu : parseUInt c mx = .ok n) :
+    c.length ≤ k ∧ c ≠ [] ∧ n = digitsVal c 0 ∧ n ≤ mx ∧ n < 10 ^ k := by
+  have hasc := all_digit_ascii c hd
+  have hb := blen_ascii c hasc
+  unfold parseUInt at hu
+  split at hu; · cases hu
+  rename_i hne
+  simp only at hu
+  split at hu
+  · rename_i hle
+    cases hu
+    have hl : c.length ≤ k := by omega
+    have hlt := digitsVal_lt c 0 (by rw [← all_isDigit_iff]; exact hd)
+    refine ⟨hl, ?_, rfl, hle, ?_⟩
+    · intro h0; subst h0; simp at hne
+    · have : 10 ^ c.length ≤ 10 ^ k := Nat.pow_le_pow_right (by decide) hl
+      omega
+  · cases hu
+
+theorem parseUInt_digits {c : Text} {mx : Nat} (hne : c ≠ []) (hle : digitsVal c 0 ≤ mx) : parseUInt c mx = .ok (digitsVal c 0) := by
+  unfold parseUInt
+  have : c.isEmpty = false := by cases c <;> simp_all
+  simp [this, hle]
+
+/-- 28D `5n/5n`: index and total of one to five digits, index positive and not above the total -/
+theorem accepts_iff_28D (s : Text) : (F28D.parse s).isOk = true ↔ Doc.F28D s := by
+  constructor
+  · intro h
+    cases hp : F28D.parse s with
+    | err => rw [hp] at h; simp [Res.isOk] at h
+    | panic => rw [hp] at h; simp [Res.isOk] at h
+    | ok v =>
+      unfold F28D.parse at hp
+      simp only at hp
+      split at hp; · cases hp
+      rename_i hk
+      obtain ⟨_, hd, hp⟩ := bind_ok_inv hp
+      have hd' := guard_ok hd
+      obtain ⟨i, hi, hp⟩ := bind_ok_inv hp
+      obtain ⟨il, ine, ieq, _, _⟩ := numRead hk hd' hi
+      split at hp
+      · cases hp
+      · rename_i t ht
+        split at hp; · cases hp
+        rename_i hk2
+        obtain ⟨_, hd2, hp⟩ := bind_ok_inv hp
+        have hd2' := guard_ok hd2
+        obtain ⟨n, hn, hp⟩ := bind_ok_inv hp
+        obtain ⟨nl, nne, neq, _, _⟩ := numRead hk2 hd2' hn
+        split at hp; · cases hp
+        rename_i hin
+        split at hp; · cases hp
+        rename_i hz
+        -- the text is index ++ '/' ++ total
+        have hshape : s = (splitAtFirst '/' s).1 ++ '/' :: t := by
+          unfold splitAtFirst at ht ⊢
+          cases hf : findChar '/' s with
+          | none => rw [hf] at ht; simp at ht
+          | some p =>
+            rw [hf] at ht
+            simp only at ht ⊢
+            split at ht
+            · cases ht
+            · cases ht
+              exact (findChar_split hf).1
+        refine ⟨(splitAtFirst '/' s).1, t, hshape, ?_, il, ?_, nl,
+          fun c hc => List.all_eq_true.mp hd' c hc, fun c hc => List.all_eq_true.mp hd2' c hc, ?_, ?_⟩
+        · cases hx : (splitAtFirst '/' s).1 with
+          | nil => exact absurd hx ine
+          | cons _ _ => simp
+        · cases hx : t with
+          | nil => exact absurd hx nne
+          | cons _ _ => simp
+        · rw [← ieq]
+          have : ¬ ((i == 0 || n == 0) = true) := hz
+          simp only [Bool.or_eq_true, beq_iff_eq, not_or] at this
+          omega
+        · rw [← ieq, ← neq]; omega
+  · rintro ⟨a, b, rfl, a1, a5, b1, b5, ad, bd, hpos, hle⟩
+    have adall : a.all Char.isDigit = true := List.all_eq_true.mpr ad
+    have bdall : b.all Char.isDigit = true := List.all_eq_true.mpr bd
+    have ano : ∀ c ∈ a, c ≠ '/' := by
+      intro c hc he; subst he; have := ad _ hc; revert this; decide
+    have bne : b ≠ [] := by intro he; subst he; simp at b1
+    have ane : a ≠ [] := by intro he; subst he; simp at a1
+    have aasc := all_digit_ascii a adall
+    have basc := all_digit_ascii b bdall
+    have alt := digitsVal_lt a 0 (by rw [← all_isDigit_iff]; exact adall)
+    have blt := digitsVal_lt b 0 (by rw [← all_isDigit_iff]; exact bdall)
+    have pa : 10 ^ a.length ≤ 10 ^ 5 := Nat.pow_le_pow_right (by decide) a5
+    have pb : 10 ^ b.length ≤ 10 ^ 5 := Nat.pow_le_pow_right (by decide) b5
+    have amax : digitsVal a 0 ≤ u32Max := by unfold u32Max; omega
+    have bmax : digitsVal b 0 ≤ u32Max := by unfold u32Max; omega
+    unfold F28D.parse
+    simp only
+    rw [splitAtFirst_append '/' a b ano bne]
+    have ha5 : ¬ blen a > 5 := by rw [blen_ascii a aasc]; omega
+    have hb5 : ¬ blen b > 5 := by rw [blen_ascii b basc]; omega
+    have hgt : ¬ digitsVal a 0 > digitsVal b 0 := by omega
+    have hz : ¬ ((digitsVal a 0 == 0 || digitsVal b 0 == 0) = true) := by
+      simp only [Bool.or_eq_true, beq_iff_eq, not_or]; omega
+    simp only [ha5, if_false, parseNumeric, Res.guard, adall, if_true, Res.bind_ok, parseUInt_digits ane amax, hb5, bdall,
+      parseUInt_digits bne bmax, hgt, hz, Res.pure_eq]
+    rfl
+
 end SwiftMT.Props.C05
